@@ -15,8 +15,8 @@ from pbt import core, dagprop, dagrun, oracles, refmodel, resultcase, specs
 from pbt.universe import vu
 
 LEVEL = 'exploration'
-RULE = ('Engine "probe": DAGs (1-7 nodes) of probing tasks - default filter_context and a filter_context selecting the context keys '
-        'named by a parameter - x backends {serial, fork, spawn} x max_workers x generated contexts (nested values); the caller '
+RULE = ('Engine "probe": DAGs (1-7 nodes) of probing tasks - default filter_context, a filter_context selecting the context keys '
+        'named by a parameter, and a deliberately non-idempotent wrapping filter - x backends {serial, fork, spawn; fork and spawn Labs alternating inside one process} x max_workers x generated contexts (nested values); the caller '
         'mutates a module global and appends to a module-level list of the task module after import and before run_tasks. Each '
         'run() reports pid, parent pid, native thread id, the module global, the list, and its value embeds a digest of '
         'self.context. Oracle: value == reference evaluator with the reference-filtered context (context clause, every backend); '
@@ -67,7 +67,7 @@ def check_probe(spec: dict) -> core.CaseResult:
         if backend != 'serial' and len(set(pids)) != len(pids):
             findings.append(core.Finding(f'C16:{backend}-tasks-shared-a-process', str(pids)))
     f = specs.features(spec)
-    filt = {json.dumps(n['payload']) for n in spec['nodes'] if n['type'].startswith('CtxSub')}
+    filt = {json.dumps([n['type'], n['payload']]) for n in spec['nodes'] if n['type'].startswith('Ctx')}
     nt = backend != 'serial' and len(filt) >= 2
     seen = set()
     findings = [x for x in findings if not (x.signature in seen or seen.add(x.signature))]
@@ -140,7 +140,7 @@ def probe_spec(backend: str):
         sp['pre_cached'] = []
         sp['lab']['bust_cache'] = False
         return sp
-    base = specs.dag_spec(min_nodes=1, max_nodes=4 if backend == 'spawn' else 7, backends=(backend,), types=['NN', 'N2', 'CtxSub', 'CtxSub2', 'Z'],
+    base = specs.dag_spec(min_nodes=1, max_nodes=4 if backend == 'spawn' else 7, backends=(backend,), types=['NN', 'N2', 'CtxSub', 'CtxSub2', 'Z', 'CtxWrap'],
                           pre_cache=False, bust=False, allow_fresh_same_parent=True)
     return st.builds(fix, base, st.dictionaries(st.sampled_from(['a', 'b', 'c', 'zz', 'other']), CTX_VALUES, max_size=4))
 
@@ -156,6 +156,8 @@ def plan(tier: str) -> list[dict]:
     jobs = [{'engine': 'probe:serial', 'n': 60 if q else 2000, 'hashseed': 0}]
     jobs += [{'engine': 'probe:fork', 'n': 25 if q else 700, 'hashseed': 1 + i} for i in range(4)]
     jobs += [{'engine': 'probe:spawn', 'n': 4 if q else 60, 'hashseed': 5 + i} for i in range(4)]
+    # fork and spawn Labs alternating inside ONE process (state shared between runner classes would leak from one to the other)
+    jobs += [{'engine': 'probe:mixed', 'n': 8 if q else 150, 'hashseed': 6 + i} for i in range(2)]
     jobs += [{'engine': 'ctx', 'backends': ['serial'], 'n': 40 if q else 1500, 'hashseed': 2},
              {'engine': 'ctx', 'backends': ['fork'], 'n': 12 if q else 400, 'hashseed': 3}]
     return jobs
@@ -163,6 +165,10 @@ def plan(tier: str) -> list[dict]:
 
 def run_job(rec: core.Recorder, job: dict, seed: int) -> None:
     e = job['engine']
+    if e == 'probe:mixed':
+        core.run_hypothesis(rec, e, st.one_of(probe_spec('fork'), probe_spec('spawn'), probe_spec('fork')), check_probe, max_examples=job['n'], seed=seed,
+                            shrink=False)
+        return
     if e.startswith('probe:'):
         b = e.split(':')[1]
         core.run_hypothesis(rec, e, probe_spec(b), check_probe, max_examples=job['n'], seed=seed, shrink=(b == 'serial' or rec.tier == 'thorough'))
